@@ -150,7 +150,7 @@ ADDENDA = {
     "C14": " Also: every control-flow cycle through the body of a while, do-while or triple-for executor passes through a read of the condition and through the update block (R14.11); a function that opens a frame set for a call returns a nil block-exit payload (R14.12).",
     "C16": " Also: the %1S … %9S table of strftime is read from the registered closures: width k and divisor 10^(9-k) (R16.6).",
     "C17": " Also: a consumer holding a reader's record and error channels receives records only in a blocking select that also receives the error channel, and polls the error channel on the end-of-stream path (R17.16); the data result of ReadString/ReadBytes is used or known to be empty on every path to a return or the next read (R17.17); the ProcessState of every child command, input or output, is used (R17.13, without exceptions).",
-    "C18": " Also: a path typestate over every verb parser, argument helper and flag parser establishes argc - i >= 1 before each args[i] (R18.10); no map update writes to a value that is nil on a merging edge (R18.11); a slice x[a:len(x)-b] with a,b >= 1 needs an established len(x) >= a+b, where HasPrefix and HasSuffix give the longer length, not the sum, and the text of a match of a constant regexp is at least its shortest match (R18.4d).",
+    "C18": " Also: a path typestate over every verb parser, argument helper and flag parser establishes argc - i >= 1 before each args[i] (R18.10); no map update writes to a value that is nil on a merging edge (R18.11); a slice x[a:len(x)-b] with a,b >= 1 needs an established len(x) >= a+b, where HasPrefix and HasSuffix give the longer length, not the sum, and the text of a match of a constant regexp is at least its shortest match (R18.4d); a constant upper bound needs an established lower bound and a summed bound a test against the same sum (R18.4e); in the readers no path leads from a header/data length mismatch to the cell-by-cell header read of the same line (R18.4f).",
     "C19": " Also: WrapOutputHandle has an explicit case for every decompressing encoding, and FindInputEncoding's file-name suffixes agree with the read path's (R19.9).",
     "C20": " Also: every function that rewrites a link of the recency list maintains both end pointers (R20.9, found by type shape, not by name).",
 }
